@@ -220,6 +220,22 @@ U("tilde_expand", entry="h_tilde_expand", func="cfg_tilde_expand", defs={"quick"
 U("add_searchpath", entry="h_add_searchpath", func="cfg_add_searchpath", defs={"quick": ["-DNAMEN=2", "-DCFGV_FIXED_DUP=8"]}, cbmc=unw(8) + OOM + LEAK,
   label="bounded(directory <= 2 bytes; allocation may fail)", props=["C17", "C18", "C16", "C07", "C02"], cost=20, trusted=PTRUST, **PTH)
 
+# ------------------------------------------------------------------ printing (C19 C05)
+PRT = dict(harness="harness/print.c", defs={"quick": []})
+PRTRUST = ["fprintf: assumed contract (writes literal text, %s, %c, %ld, %f as C11 specifies); digits of numbers are libc's"]
+U("nprint_str", entry="h_nprint_str", func="cfg_opt_nprint_var (strings)", cbmc=unw(68) + NOOOM, label="bounded(string value <= 3 bytes over all bytes)", props=["C05", "C19", "C02"], cost=10, trusted=PRTRUST,
+  carriers=["carriers/print_carriers.c"], **PRT)
+U("nprint_num", entry="h_nprint_num", func="cfg_opt_nprint_var (numbers, booleans)", cbmc=unw(68) + NOOOM, label="proof (loop-free)", props=["C05", "C19", "C02"], cost=10, trusted=PRTRUST,
+  carriers=["carriers/print_carriers.c"], **PRT)
+U("print_opt", entry="h_print_opt", func="cfg_opt_print_pff_indent, cfg_indent", cbmc=unw(68) + NOOOM, remove=["cfg_opt_nprint_var", "cfg_print_pff_indent"],
+  carriers=["carriers/print_carriers.c"], defs={"quick": ["-DCFGV_CARRY_NPRINT", "-DCFGV_CARRY_PRINTCFG"]},
+  label="bounded(14 literal option shapes: type x list/title/annotation flags x <= 3 values; callback / annotation present or absent; depth 0..2)", props=["C19", "C05", "C15", "C02"], cost=60,
+  trusted=PRTRUST, harness="harness/print.c")
+U("print_cfg", entry="h_print_cfg", func="cfg_print_pff_indent", cbmc=unw(68) + NOOOM, remove=["cfg_opt_print_pff_indent"], carriers=["carriers/print_carriers.c"],
+  defs={"quick": ["-DCFGV_CARRY_PRINTOPT"]}, label="bounded(<= 3 options; every verdict of own / inherited filter; any depth)", props=["C19", "C02"], cost=20, trusted=PRTRUST, harness="harness/print.c")
+U("print_hooks", entry="h_print_hooks", func="cfg_opt_set_print_func, cfg_set_print_filter_func", cbmc=unw(68) + NOOOM, label="proof (loop-free)", props=["C19", "C02"], cost=5,
+  carriers=["carriers/print_carriers.c"], **PRT)
+
 # ------------------------------------------------------------------ per-property text for MANIFEST / evidence
 HOOK_COMMITS = ["b37b503"]
 NOT_APPLICABLE = {}
